@@ -1665,6 +1665,14 @@ func streamHosts(g *G) { // C14
 			probe()
 			hid++
 		}
+		if g.chance(0.2) {
+			// non-ASCII letters: Add lower-cases the domain, Match the Host — with the same function (outside the model, judged)
+			g.emit("hosts %d %s", hid, encL([]string{g.pick([]string{"bücher.example.com", "BÜCHER.example.com", "café.example.org"}), "plain.example.com"}))
+			for _, h := range []string{"bücher.example.com", "bÜcher.example.com", "BÜCHER.example.com:80", "bÜcher.example.com:80", "café.example.org", "cafÉ.example.org", "CAFÉ.example.org", "plain.example.com"} {
+				g.emit("hosts-match %d %s", hid, encB(h))
+			}
+			hid++
+		}
 		if g.chance(0.3) {
 			// wildcard domains whose parameter is IGNORED ({-sub}): an accepting Match writes no parameter, exactly like a literal
 			// domain; repeated matches of one host around Delete/Add of the wildcard (in another spelling) and of a literal
